@@ -86,10 +86,18 @@ def rotation_from(desc):
 def rand_frame(rng):
     """orthonormal (z, x) as a random rotation of the standard frame; sometimes axis-aligned"""
     r = rng.random()
-    if r < 0.15:
+    if r < 0.1:
         return np.array([0.0, 0.0, 1.0]), np.array([1.0, 0.0, 0.0])
-    if r < 0.25:
-        return np.array([1.0, 0.0, 0.0]), np.array([0.0, 0.0, -1.0])
+    if r < 0.4:
+        # a signed permutation of the coordinate axes, exactly or tilted by a small angle
+        # (code that special-cases "vertical" / axis-aligned antennas shows up here)
+        i, j = rng.sample([0, 1, 2], 2)
+        z, x = np.zeros(3), np.zeros(3)
+        z[i], x[j] = rng.choice([1.0, -1.0]), rng.choice([1.0, -1.0])
+        if rng.random() < 0.7:
+            Rm = rodrigues(rand_unit(rng), 10 ** rng.uniform(-6, -1.2))
+            z, x = Rm @ z, Rm @ x
+        return z, x
     Rm, _ = rand_rotation(rng)
     return Rm @ np.array([0.0, 0.0, 1.0]), Rm @ np.array([1.0, 0.0, 0.0])
 
